@@ -180,7 +180,16 @@ pub fn run_conv(case: &Value) -> Value {
         Err(e) => return json!({"unparsed": e}),
     };
     let target = case["target"].as_str().unwrap_or("");
-    match dispatch(target, &input) {
+    let helper = |f: fn(&syn::Meta) -> darling::Result<syn::Expr>| match &input {
+        Input::Meta(m) => Some(outcome(catch(|| f(m)))),
+        _ => Some(json!({"error": "helpers take a Meta"})),
+    };
+    let r = match target {
+        "helper:preserve" => helper(darling::util::parse_expr::preserve_str_literal),
+        "helper:parse" => helper(darling::util::parse_expr::parse_str_literal),
+        _ => dispatch(target, &input),
+    };
+    match r {
         None => json!({"error": format!("unknown target {}", target)}),
         Some(mut out) => {
             if let Some(inner) = case["inner"].as_str() {
